@@ -177,6 +177,10 @@ func filterGen(r *rand.Rand, n int, maxN int) []Case {
 		if r.Intn(4) == 0 {
 			cnt = 1 + r.Intn(4)
 		}
+		if c%100 == 99 {
+			// a few filters with many thousands of entries (the model's bit list makes these expensive to replay)
+			cnt = 4 * maxN
+		}
 		// dims exactly as filter.New computes them: ask the implementation once
 		var ents []types.Entry
 		var keys []string
@@ -186,8 +190,8 @@ func filterGen(r *rand.Rand, n int, maxN int) []Case {
 			if r.Intn(2) == 0 {
 				k = fmt.Sprintf("key-%d", r.Intn(cnt*2))
 			}
-			if r.Intn(7) == 0 {
-				// long keys, around and far above typical buffer sizes (32, 64, 128, 256 …)
+			if r.Intn(7) == 0 && cnt <= 300 {
+				// long keys, around and far above typical buffer sizes (small filters only: the model's key lookup is linear) (32, 64, 128, 256 …)
 				n := []int{31, 32, 33, 63, 64, 65, 66, 127, 128, 129, 200, 255, 256, 257, 1000, 5000}[r.Intn(16)]
 				b := make([]byte, n)
 				for j := range b {
